@@ -367,6 +367,20 @@ class Gen(object):
             op['kw'] = dict(op['kw'], scale=r.choice([2, 0.5, 4, 0.25, 1]), bias=r.choice([0, 1, -2, 0.5, 8]))
         return op
 
+    def g_new_allcodes(self):
+        """A source register holding EVERY code of a tiny format (n_word <= 6), stored raw; each
+        later conversion hop from it exercises the whole source format at once."""
+        r = self.rng
+        nw = r.randint(1, 6)
+        signed = r.random() < 0.6
+        nf = r.randint(-2, nw + 2) if r.random() < 0.4 else r.randint(0, nw)
+        lo, hi = Q.bounds(signed, nw)
+        codes = list(range(lo, hi + 1))
+        if r.random() < 0.3:
+            r.shuffle(codes)
+        return {'op': 'new', 'val': ['a', 'int64', [len(codes)], [[c, 0] for c in codes]],
+                'fmt': [signed, nw, nf], 'kw': self.modes(full=True), 'raw': True}
+
     def g_new_infer(self):
         """Constructor with sizes left to inference."""
         r = self.rng
@@ -410,10 +424,18 @@ class Gen(object):
             op['src'] = {'val': self.val_for((bool(lo.signed), lo.n_word, lo.n_frac), lo.config.rounding)}
         else:
             op['src'] = None
-        if r.random() < 0.15:
-            f = self.clamp_fmt(self.near_fmt([bool(lo.signed), lo.n_word, lo.n_frac]))
-            op['fmt'] = [None, f[1], f[2]] if r.random() < 0.5 else f
+        if r.random() < 0.2:
+            op['fmt'] = self.partial_override(lo)
         return op
+
+    def partial_override(self, lo):
+        """A format override naming any non-empty subset of (signed, n_word, n_frac)."""
+        r = self.rng
+        f = self.clamp_fmt(self.near_fmt([bool(lo.signed), lo.n_word, lo.n_frac]))
+        if r.random() < 0.3:
+            f[0] = not bool(lo.signed)
+        mask = r.choice([(1, 0, 0), (0, 1, 0), (0, 0, 1), (1, 1, 0), (1, 0, 1), (0, 1, 1), (1, 1, 1)])
+        return [f[k] if mask[k] else None for k in range(3)]
 
     def g_new_tplkw(self):
         kt, it = self.pick()
@@ -810,6 +832,10 @@ class Gen(object):
         if f[2] - cur[2] > 0 and mx.bit_length() + (f[2] - cur[2]) >= 61:
             f[2] = cur[2]
         op = {'op': 'resize', 'slot': self.cands().index(i), 'fmt': f}
+        if 'F2' in self.p.faults and r.random() < 0.06:
+            # malformed format string, or sizes given together with a dtype: must be rejected
+            op['dtype'] = r.choice(['fxp-x8/2', 'fxp', 'Z3.4', '', 'fxp-s8', 's'])
+            return op
         if r.random() < dtype_p:
             if r.random() < 0.5:
                 op['dtype'] = 'fxp-%s%d/%d' % ('s' if f[0] else 'u', f[1], f[2])
@@ -956,6 +982,7 @@ class Gen(object):
         if prop == 'C20' or prop == 'C02':
             add(6, self.g_new)
             add(1, self.g_new_infer)
+            add(1, self.g_new_allcodes)
             add(3, self.g_new_from)
             add(4, self.g_new_like)
             add(2, self.g_new_tplkw, 'templates')
@@ -1036,6 +1063,7 @@ class Gen(object):
                 add(1, self.g_template)
         elif prop == 'C10':
             add(6, lambda: self.g_new(full_modes=True))
+            add(2, self.g_new_allcodes)
             add(7, lambda: self.g_resize(dtype_p=0.35))
             add(5, self.g_new_from)
             add(5, self.g_conv_like_kw)
@@ -1061,7 +1089,10 @@ class Gen(object):
         ks, isrc = self.pick(self.is_real)
         if kl is None or ks is None:
             return self.g_new()
-        return {'op': 'new_like', 'like': self.cands().index(il), 'src': {'slot': self.cands().index(isrc)}}
+        op = {'op': 'new_like', 'like': self.cands().index(il), 'src': {'slot': self.cands().index(isrc)}}
+        if self.rng.random() < 0.3:
+            op['fmt'] = self.partial_override(self.w.slots[il].obj)
+        return op
 
     def g_conv_equal(self):
         k, i = self.pick(self.is_real)
